@@ -32,6 +32,8 @@ type Scenario struct {
 	GrowBy           int           `json:"grow_by,omitempty"`
 	GrowSides        int           `json:"max_growside_ops,omitempty"` // bound on "growside" operations (extend the heaviest side leaf by GrowSideBy double-work headers)
 	GrowSideBy       int           `json:"growside_by,omitempty"`
+	GrowXs           int           `json:"max_growx_ops,omitempty"` // bound on "growx" operations (extend the heaviest side leaf by GrowXBy unit-work headers: a long side branch that stays behind)
+	GrowXBy          int           `json:"growx_by,omitempty"`
 	UnmarkConfigured bool          `json:"unmark_configured,omitempty"`     // offer unmark for hashes marked through the configuration
 	MarkOnlyKnown    bool          `json:"mark_only_known,omitempty"`       // marks: accepted headers only (no pre-empted or unknown hashes, no unmarking)
 	Faults           []int         `json:"storage_fault_at_call,omitempty"` // submissions reaching a multiple of 10000 are also offered with the k-th storage call failing
@@ -209,7 +211,10 @@ func (sc *Scenario) enabled(w *hdr.World, hist []hdr.Op) []hdr.Op {
 	if countOps(hist, "growside") < sc.GrowSides {
 		ops = append(ops, hdr.Op{K: "growside", D: sc.GrowSideBy})
 	}
-	if sc.Lag > 0 && countOps(hist, "growlag", "fullrace") == 0 && countOps(hist, "sub", "grow", "growside") == 0 {
+	if countOps(hist, "growx") < sc.GrowXs {
+		ops = append(ops, hdr.Op{K: "growx", D: sc.GrowXBy})
+	}
+	if sc.Lag > 0 && countOps(hist, "growlag", "fullrace") == 0 && countOps(hist, "sub", "grow", "growside", "growx") == 0 {
 		ops = append(ops, hdr.Op{K: "growlag", D: sc.Lag})
 		if countOps(hist, "subscribe") > 0 {
 			ops = append(ops, hdr.Op{K: "fullrace"}, hdr.Op{K: "fullrace", D: 1}, hdr.Op{K: "fullrace", D: 2})
